@@ -642,3 +642,78 @@ Proof. intros H Hw. apply check_lines_spec. eexists. apply explain_union_inherit
 Corollary explain_intersect_check n :
   inv_intersect n -> check_lines (explain_select_intersect_except_query 0 n) = true.
 Proof. intros H. apply check_lines_spec. eexists. apply explain_intersect_tree. exact H. Qed.
+
+(* ---------------------------------------------------------------------------------------- *)
+(** * Necessity: without the LIMIT / SETTINGS invariants the header and the printed children differ *)
+
+Lemma header_direct_forest d lab k ks :
+  header_count (hdr d lab k :: render_forest (S d) ks) = k /\
+  direct_children (hdr d lab k :: render_forest (S d) ks) = length ks.
+Proof.
+  split; [reflexivity|].
+  change (direct_children (hdr d lab k :: render_forest (S d) ks))
+    with (direct_children (render d (Node lab ks))).
+  apply direct_children_render.
+Qed.
+
+Lemma explain_select_query_forest d n :
+  inv_shape n ->
+  explain_select_query d n
+  = hdr d L_SelectQuery (count_select_query_children n) :: render_forest (S d) (select_children n).
+Proof.
+  intros [Hc [Ht Hg]].
+  change (explain_select_query d n) with
+    (hdr d L_SelectQuery (count_select_query_children n)
+     :: when (nonempty (sq_with n)) (expr_list (S d) (sq_with n))
+     ++ expr_list (S d) (sq_columns n) ++ emit_middle (sq_grouping_sets n) d n).
+  f_equal. unfold select_children. rewrite !render_forest_app, render_forest_one.
+  rewrite <- when_expr_list, <- expr_list_tree by exact Hc.
+  rewrite emit_middle_forest by assumption. reflexivity.
+Qed.
+
+Theorem select_counts_agree_iff d n :
+  inv_shape n ->
+  (header_count (explain_select_query d n) = direct_children (explain_select_query d n)
+   <-> inv_limit n).
+Proof.
+  intros Hs. rewrite (explain_select_query_forest d n Hs).
+  destruct (header_direct_forest d L_SelectQuery (count_select_query_children n) (select_children n))
+    as [-> ->].
+  symmetry. apply count_select_query_children_correct.
+Qed.
+
+Lemma explain_union_forest d n wf :
+  Forall inv_item (u_grouped n) ->
+  explain_select_with_union_query_format d n wf
+  = hdr d L_SelectWithUnionQuery (count_select_union_children_format n wf)
+    :: hdr (S d) L_ExpressionList (length (u_grouped n))
+    :: render_forest (S (S d)) (grouped_trees (union_first_with n) true (u_grouped n))
+    ++ render_forest (S d) (union_tail_children n wf).
+Proof.
+  intros Hi. unfold explain_select_with_union_query_format. f_equal. f_equal. f_equal.
+  - apply emit_grouped_forest. exact Hi.
+  - apply emit_union_tail_forest.
+Qed.
+
+Theorem union_counts_agree_iff d n wf :
+  u_grouped n <> [] -> Forall inv_item (u_grouped n) ->
+  (header_count (explain_select_with_union_query_format d n wf)
+   = direct_children (explain_select_with_union_query_format d n wf)
+   <-> inv_union_settings n).
+Proof.
+  intros Hne Hi. rewrite (explain_union_forest d n wf Hi).
+  assert (E : hdr (S d) L_ExpressionList (length (u_grouped n))
+              :: render_forest (S (S d)) (grouped_trees (union_first_with n) true (u_grouped n))
+              ++ render_forest (S d) (union_tail_children n wf)
+              = render_forest (S d)
+                  (T_EL (grouped_trees (union_first_with n) true (u_grouped n))
+                   :: union_tail_children n wf)).
+  { change (T_EL ?x :: ?y) with ([T_EL x] ++ y). rewrite render_forest_app, render_forest_one.
+    unfold T_EL. rewrite render_node, grouped_trees_length, kcount_some
+      by (destruct (u_grouped n); [congruence|discriminate]). reflexivity. }
+  rewrite E.
+  destruct (header_direct_forest d L_SelectWithUnionQuery (count_select_union_children_format n wf)
+              (T_EL (grouped_trees (union_first_with n) true (u_grouped n)) :: union_tail_children n wf))
+    as [-> ->].
+  cbn [length]. symmetry. apply count_select_union_children_correct.
+Qed.
